@@ -188,7 +188,8 @@ def enum_daemon(seed):
     workdir = tempfile.mkdtemp(prefix="c31.", dir=os.environ.get("PYVC_SCRATCH", "/var/tmp"))
     tdir = os.path.join(workdir, "T")
     os.makedirs(tdir)
-    old_alarm = signal.signal(signal.SIGALRM, lambda *a: (_ for _ in ()).throw(TimeoutError("daemon did not answer")))
+    on_alarm = lambda *a: (_ for _ in ()).throw(TimeoutError("daemon did not answer"))
+    old_alarm = signal.signal(signal.SIGALRM, on_alarm)
     ebp = None
     try:
         ebp = processor.request_ebuild_processor()
@@ -198,6 +199,7 @@ def enum_daemon(seed):
             names = [k for k in env if k != "PKGCORE_NONEXPORTED_VARS"]
             cases += 1
             model = {"round": round_, "transfer": "file" if via_file else "inline", "env": {k: v for k, v in env.items()}}
+            signal.signal(signal.SIGALRM, on_alarm)      # (the processor's own timed reads put the default handler back)
             signal.alarm(60)
             try:
                 ebp.write("process_ebuild setup")
@@ -239,6 +241,32 @@ def enum_daemon(seed):
                         break
             except Exception as e:
                 fails.append({"model": model, "detail": f"round {round_} ({model['transfer']} transfer): {type(e).__name__}: {e}"})
+                break
+            finally:
+                signal.alarm(0)
+        # an environment that changes the locale of the daemon's shell (an ebuild environment carries LC_* / LANG like any other variable),
+        # followed in the same session by an inline transfer with multi-byte characters: the announced size counts bytes whatever the locale
+        for loc_var, loc_val in (("LC_ALL", "C.UTF-8"), ("LC_CTYPE", "C.UTF-8"), ("LANG", "C.UTF-8")):
+            if fails or ebp is None or not ebp.is_responsive:
+                break
+            cases += 1
+            model = {"first_transfer": {loc_var: loc_val}, "second_transfer": {"T_word": "caf\u00e9 \u65e5\u672c\u8a9e"}, "transfer": "inline, twice in one session"}
+            signal.signal(signal.SIGALRM, on_alarm)
+            signal.alarm(30)
+            try:
+                ebp.write("process_ebuild setup")
+                ok1 = ebp.send_env({loc_var: loc_val, "T_plain": "x"})
+                ok2 = ok1 and ebp.send_env({"T_word": "caf\u00e9 \u65e5\u672c\u8a9e", "T_tail": "z"})
+                if not (ok1 and ok2):
+                    fails.append({"model": model, "detail": f"{loc_var}={loc_val} sent, then an inline environment with multi-byte characters: the daemon did not acknowledge the {'first' if not ok1 else 'second'} transfer"})
+                    break
+                ebp.write("shutdown_daemon")
+                reply = ebp.read().strip()
+                if reply != "phases succeeded":
+                    fails.append({"model": model, "detail": f"{loc_var}={loc_val} sent, then an inline environment with multi-byte characters: the daemon answered {reply!r} to the next request"})
+                    break
+            except Exception as e:
+                fails.append({"model": model, "detail": f"{loc_var}={loc_val} sent, then an inline environment with multi-byte characters in the same session: {type(e).__name__}: {e}"})
                 break
             finally:
                 signal.alarm(0)
